@@ -93,40 +93,30 @@ class LexModel:
                 raise AnalysisError(f'cannot fold regex pattern expression ({exc}): {norm(expr.args[0])[:80]}')
             flags_expr = expr.args[1] if len(expr.args) > 1 else next(
                 (k.value for k in expr.keywords if k.arg == 'flags'), None)
+            if isinstance(flags_expr, ast.Name) and flags_expr.id in env:
+                flags_expr = ast.Constant(value=int(env[flags_expr.id]))
             if not isinstance(pat, str):
                 raise AnalysisError('folded regex pattern is not a string')
             return pat, fold_flags(flags_expr)
         if isinstance(fn, ast.Name) and fn.id in self.module.functions:
+            from .src import eval_const_function
             f = self.module.functions[fn.id]
-            a = f.node.args
-            env2 = {}
             try:
-                args = [fold(x, env, self.repo, self.module) for x in expr.args]
+                args = []
+                for x in expr.args:
+                    if isinstance(x, ast.Starred):
+                        args.extend(fold(x.value, env, self.repo, self.module))
+                    else:
+                        args.append(fold(x, env, self.repo, self.module))
+                kwargs = {kw.arg: fold(kw.value, env, self.repo, self.module) for kw in expr.keywords}
+                res = eval_const_function(self.repo, self.module, f.node, args, kwargs)
             except Unfoldable as exc:
-                raise AnalysisError(f'cannot fold arguments of {fn.id}: {exc}')
-            pos = [p.arg for p in a.posonlyargs + a.args]
-            for p, v in zip(pos, args):
-                env2[p] = v
-            if a.vararg:
-                env2[a.vararg.arg] = tuple(args[len(pos):])
-            elif len(args) > len(pos):
-                raise AnalysisError(f'too many arguments for {fn.id}')
-            for kw in expr.keywords:
-                env2[kw.arg] = fold(kw.value, env, self.repo, self.module)
-            body = [s for s in f.node.body
-                    if not (isinstance(s, ast.Expr) and isinstance(s.value, ast.Constant))]
-            for st in body[:-1]:
-                if isinstance(st, ast.Assign) and len(st.targets) == 1 and isinstance(st.targets[0], ast.Name):
-                    try:
-                        env2[st.targets[0].id] = fold(st.value, env2, self.repo, self.module)
-                    except Unfoldable as exc:
-                        raise AnalysisError(f'cannot fold {fn.id}: {norm(st)[:70]} ({exc})')
-                else:
-                    raise AnalysisError(f'{fn.id} is not straight-line assignments + return: {norm(st)[:60]}')
-            last = body[-1]
-            if not isinstance(last, ast.Return) or last.value is None:
-                raise AnalysisError(f'{fn.id} does not end in a return')
-            return self._fold_regex_expr(last.value, env2)
+                raise AnalysisError(f'cannot evaluate {fn.id}(...) on its constant arguments: {exc}')
+            except (KeyError, TypeError, IndexError) as exc:
+                raise AnalysisError(f'evaluating {fn.id}(...) failed: {type(exc).__name__}: {exc}')
+            if res[0] == 'call':
+                return self._fold_regex_expr(res[1], res[2])
+            raise AnalysisError(f'{fn.id}(...) does not return a compiled pattern')
         raise AnalysisError(f'pattern constant built by an unknown callable: {norm(fn)}')
 
     # -- spec side -------------------------------------------------------------------------
